@@ -147,8 +147,9 @@ func runCheck(repo, prop, tier string) int {
 		fc := w.cons.Funcs[key]
 		if fc == nil {
 			fc = &FuncContract{Key: key, Opts: map[string]string{}}
-		} else if prop == "C12" && !fc.Extern && !fc.Trusted && fc.Opts["interface"] == "" {
-			// included below: default safety obligations carry C12
+		} else if prop == "C12" && !fc.Extern && !fc.Trusted && fc.Opts["interface"] == "" &&
+			(fc.mentions(prop) || !strings.HasPrefix(fc.Pkg, modPath+"/proxy")) {
+			// included below: default safety obligations carry C12 (core packages)
 		} else if fc.Extern || fc.Trusted || !fc.mentions(prop) {
 			continue
 		}
